@@ -9,7 +9,7 @@ META = {
     "technique": "Lean 4 theorems about a layout-level model of HashTable/HArray/HList (bucket heads, 1-based Next links, tombstones) for an arbitrary hash function with H k != 0: chain invariant + refinement to a list-of-slots specification; model/implementation correspondence on the full memory layout after every step of generated operation sequences",
     "level": "proof",
     "design_ref": "DESIGN.md §6 C13, notes/design-hashtable.md",
-    "text": "Kernel-checked theorems: the invariant (capacity a power of two, chains acyclic and complete, stored hash = H key, live keys distinct) holds for the empty table and is preserved by the operations, which never fault and refine the slot specification (find never exhausts its fuel); StringUtils::Hash satisfies H k != 0. The model is tied to the real headers by comparing Size, Capacity, every bucket head and every item's key/Hash/Next/value after every step of operation sequences over three key alphabets (duplicates and embedded NUL; 64 keys colliding at every capacity 2..64; random bytes) for HArray<String,String>, HArray<String,Value> and HList<String>.",
+    "text": "Kernel-checked theorems, for every hash function with H k != 0 and every value type: the invariant (capacity a power of two, chains acyclic and complete, stored hash = H key, live keys distinct) holds for the empty table and is preserved by every operation (Insert, Get/operator[], assignment, lookups by key and index, Remove, RemoveIndex, Rename, Reserve, Resize, Expect, Compress, Clear, Reset, Sort, copy, move, operator+=); no operation faults (find never exhausts its fuel) and each refines the list-of-slots specification with equal outputs; lifted to every finite operation sequence; corollaries: live entries = the textbook insertion-ordered association list, lookup = history of stores/removals, key<->index agreement, Sort permutes the entries; StringUtils::Hash satisfies H k != 0. The model is tied to the real headers by comparing Size, Capacity, every bucket head and every item's key/Hash/Next/value after every step of operation sequences over three key alphabets (duplicates and embedded NUL; 64 keys colliding at every capacity 2..64; random bytes) for HArray<String,String>, HArray<String,Value> and HList<String>.",
     "note": "Trusted: Lean kernel; axioms ⊆ {propext, Quot.sound, Classical.choice}; the correspondence harness (ASan/UBSan, exact-size key buffers, bucket heads read at Storage()-Capacity()). The ordered-map predicate is evaluated on the real object after every step twice: by the Lean slot specification (driver op htspec) and by a std::vector reference inside the harness. Not modelled: allocation failure, 32-bit overflow of the allocation size (tables >= 2^27 slots), aliasing of operands (h += h is probed on the real code only).",
 }
 
@@ -22,6 +22,12 @@ THEOREMS = [
     "Qentem.Props.C13.inv_step_refine_step",
     "Qentem.Props.C13.reachable_refines",
     "Qentem.Props.C13.reachable_refines_hashChar",
+    "Qentem.Props.C13.iteration_first_insertion_order",
+    "Qentem.Props.C13.lookup_eq_history",
+    "Qentem.Props.C13.found_iff_stored_not_removed",
+    "Qentem.Props.C13.lookup_last_stored",
+    "Qentem.Props.C13.key_index_agree",
+    "Qentem.Props.C13.sort_keeps_lookups",
     # the lemmas the step theorem rests on (one per routine)
     "Qentem.HashTable.find_some",
     "Qentem.HashTable.find_none",
@@ -49,8 +55,13 @@ THEOREMS = [
     "Qentem.HashTable.sort_spec",
     "Qentem.HashTable.rename_spec",
     "Qentem.HashTable.run_refines",
+    "Qentem.HashTable.entries_step",
+    "Qentem.HashTable.entries_run",
+    "Qentem.HashTable.spec_key_index_agree",
+    "Qentem.HashTable.sort_entries_perm",
+    "Qentem.HashTable.Inv.keysNodup",
 ]
-OPEN = []
+OPEN = ["Qentem.Props.C13.sort_orders_keys (keys ascending after Sort: corollary of sort_entries_perm once C15's 'Memory::Sort returns an ordered array' is imported)"]
 
 W = 1 << 32
 
